@@ -117,6 +117,7 @@ fn dispatch(mode: &str, line: &str) -> String {
         // what std says this (possibly confined) process may use: the meaning of a thread count of 0
         "par" => std::thread::available_parallelism().map(|n| n.get()).unwrap_or(1).to_string(),
         "retain" => tree::retain(line),
+        "tb" => tree::tb(line),
         "ovw" => opts::ovw(line),
         "into" => opts::into(line),
         "psec" => opts::psec(line),
